@@ -22,12 +22,18 @@
    Remaining scope limits: the snapshot of Range that feeds DeleteExpired is one
    product step with an arbitrary answer (as in Conc.v), i.e. Range's own bucket
    locking is not interleaved at this level (it is in C03 / C07); Count is not a
-   linearizable call; the cache text is CacheModel (xsync_map.go); C12 relates
-   the twin text sequentially. *)
+   linearizable call.
+   C02_cacheof_linearizable, C02_cacheof_over_mapof, C02_cacheof_over_map
+   (proofs/C02_methods_of.v, C02_lin_gen.v, C02_lin_of.v, CX_cacheof.v): the same
+   for the twin text CacheOfModel (xsync_mapof.go): every method body of the twin
+   is step-similar to the original's on an arbitrary map (psim: same reads, same
+   events, same map result and user-function count call by call), hence `good`;
+   no schedule separates the twins. *)
 From CacheV Require Import Base SpecMap Client CacheModel Ops SpecTTL Lin Conc.
 From CacheV.proofs Require Import C01_sim C01_hist C02_good C02_methods C02_lin.
 From CacheV Require XMachine XMachineS.
-From CacheV.proofs Require X_lin XS_resize CX_trans CX_compose CX_product CX_mapof CX_map.
+
+From CacheV.proofs Require X_lin XS_resize CX_trans CX_compose CX_product CX_mapof CX_map C02_methods_of C02_lin_gen C02_lin_of CX_cacheof.
 From Coq Require Import NArith.
 
 Theorem C02_cache_linearizable :
@@ -76,3 +82,40 @@ Definition C02_over_mapof_nonvacuous := CX_mapof.cache_over_xmachine_run.
 Definition C02_over_map_nonvacuous := CX_map.cache_over_smachine_run_a.
 Print Assumptions C02_over_mapof_nonvacuous.
 Print Assumptions C02_over_map_nonvacuous.
+
+(* ---------------- the twin text (CacheOf) ---------------- *)
+
+Theorem C02_cacheof_linearizable :
+  forall (K V : Type) (eqd : forall a b : K, {a = b} + {a <> b}) (zero : V) (NOW DFLT : Z) (CB : cbid)
+         (P0 L0 : amap K (item V)) (todo : nat -> list (cop K V)) sched,
+    Rm eqd NOW DFLT CB P0 L0 ->
+    (forall t, Forall conc_ok (todo t)) ->
+    linearizable _ _ _ (tspec eqd zero) (mk NOW DFLT CB L0)
+      (history (snd (crun eqd (prog_cacheof eqd zero) NOW DFLT CB (cinit P0 todo) sched))).
+Proof. exact @C02_lin_of.cacheof_linearizable. Qed.
+Print Assumptions C02_cacheof_linearizable.
+
+Theorem C02_cacheof_over_mapof :
+  forall (K V : Type) (eqd : forall a b : K, {a = b} + {a <> b}) (zero : V) (NOW DFLT : Z) (CB : cbid)
+         hash idx tag nslots seeds g sh probe nstripes minlen grow_only,
+    X_lin.xhyps4 idx nstripes minlen nslots probe -> forall len0 (todo : nat -> list (cop K V)) sched, (0 < len0)%nat ->
+    (forall t, Forall conc_ok (todo t)) ->
+    linearizable _ _ _ (tspec eqd zero) (mk NOW DFLT CB [])
+      (CX_mapof.cxhist eqd hash idx tag nslots seeds g sh probe nstripes minlen grow_only len0
+              (prog_cacheof eqd zero) NOW DFLT CB todo sched).
+Proof. intros. apply CX_cacheof.cacheof_over_xmachine_linearizable; assumption. Qed.
+Print Assumptions C02_cacheof_over_mapof.
+
+Theorem C02_cacheof_over_map :
+  forall (K V : Type) (eqd : forall a b : K, {a = b} + {a <> b}) (zero : V) (NOW DFLT : Z) (CB : cbid)
+         hash idx tophash nslots seeds g sh nstripes minlen grow_only,
+    @XS_resize.rhyps K hash idx tophash nslots minlen -> forall len0 (todo : nat -> list (cop K V)) sched, (0 < len0)%nat ->
+    (forall t, Forall conc_ok (todo t)) ->
+    linearizable _ _ _ (tspec eqd zero) (mk NOW DFLT CB [])
+      (CX_map.cshist eqd hash idx tophash nslots seeds g sh nstripes minlen grow_only len0
+              (prog_cacheof eqd zero) NOW DFLT CB todo sched).
+Proof. intros. apply CX_cacheof.cacheof_over_smachine_linearizable; assumption. Qed.
+Print Assumptions C02_cacheof_over_map.
+
+Definition C02_twin_run_nonvacuous := C02_lin_of.twin_run_same.
+Print Assumptions C02_twin_run_nonvacuous.
